@@ -6,8 +6,8 @@ import U3.Model.PoolConc
 * `conf <maxsize> <block 0|1> <timeout 0|1> <prog> <prog> …` — fixes the configuration and computes,
   by exhaustive search over ALL schedules (DFS over `U3.PoolConc.step` with a visited set), the set
   of outcome vectors of the terminal configurations (no thread enabled); prints `ok`.
-  A program is a `,`-joined list of ops `r<fails><O|F|C>` (request, preload; `C` = the reply carries
-  `Connection: close`), `s<fails><O|F|C>` (request, streaming), `l` (release_conn), `c` (close); `-` is the empty program.
+  A program is a `,`-joined list of ops `r<fails><O|F|C|D>` (request, preload; `C` = the reply carries
+  `Connection: close`, `D` = keep-alive reply after which the peer closes), `s<fails><O|F|C|D>` (request, streaming), `l` (release_conn), `c` (close); `-` is the empty program.
 * `mem <vector>` — `1` / `0`: is the vector a possible outcome?  A vector is
   `<thread>/<thread>/…:<open after drop>:<max open>`, a thread being its `,`-joined results
   (`hang` for the op it is blocked in for ever, `-` for every op after that, `.` if it has no op).
@@ -27,7 +27,7 @@ def parseOp (s : String) : Option Op :=
     match rest.reverse with
     | o :: ds =>
       let last? : Option Outcome :=
-        if o == 'O' then some .ok else if o == 'F' then some .fail else if o == 'C' then some .okClose else none
+        if o == 'O' then some .ok else if o == 'F' then some .fail else if o == 'C' then some .okClose else if o == 'D' then some .okDrop else none
       match last?, (String.ofList ds.reverse).toNat? with
       | some last, some n => some (.req n last (k == 's'))
       | _, _ => none
